@@ -323,7 +323,7 @@ def classification_cases():
     out = []
     # stuck:raises-*: the real solve_low_level RAISES when the executor was shut down by an early exit in another thread's callback
     # (ShutdownError from submit, or OSError 9 from the pipes of the killed solver): the verdict must still be the one of the outcomes
-    kinds = ["success", "revert", "panic", "fail", "stuck:unsat", "stuck:sat", "stuck:unknown", "stuck:err", "stuck:raises-shutdown", "stuck:raises-badfd", "stuck:raises-other", "substuck:unsat", "substuck:sat", "substuck:unknown", "shutdown"]
+    kinds = ["success", "revert", "panic", "fail", "stuck:unsat", "stuck:sat", "stuck:unknown", "stuck:err", "stuck:raises-shutdown", "stuck:raises-badfd", "stuck:raises-cancelled", "stuck:raises-other", "substuck:unsat", "substuck:sat", "substuck:unknown", "shutdown"]
     for kind in kinds:
 
         def harness(interp, kind=kind):
@@ -353,6 +353,10 @@ def classification_cases():
                     raise ShutdownError()
                 if r == "raises-badfd":
                     raise OSError(9, "Bad file descriptor")
+                if r == "raises-cancelled":
+                    from concurrent.futures import CancelledError
+
+                    raise CancelledError()  # shutdown after submit(), before the solver process exists
                 if r == "raises-other":
                     raise RuntimeError("solver wrapper bug")
                 return NS(result={"unsat": z3.unsat, "sat": z3.sat, "unknown": z3.unknown, "err": "err"}[r])
